@@ -211,6 +211,11 @@ func (self *ReplicationBufferQueue) AddPoll(cursor *ReplicationBufferQueueCursor
 	self.glock.Lock()
 	self.pollCount++
 	currentItem := cursor.currentItem
+	if currentItem != nil && (currentItem.pollCount == 0xffffffff || currentItem.seq != cursor.seq) {
+		// the cursor's item was recycled before the cursor got registered: do not walk the free list
+		// (that would clear the 0xffffffff "freed" mark); Pop will report "out of buf"
+		currentItem = nil
+	}
 	for currentItem != nil {
 		atomic.AddUint32(&currentItem.pollCount, 1)
 		currentItem = currentItem.nextItem
